@@ -1,4 +1,7 @@
-# C01 world: the simulated clock for vbi_classify_page() and a self-deadlock
-# detector for the library's (non-recursive) mutexes.  Single-threaded
-# simulation: a lock on a mutex that is already held can never succeed.
+# C01 world, link-time seams of this binary only:
+#  gettimeofday        simulated wall clock (vbi_classify_page reads it)
+#  pthread_mutex_*     self-deadlock detector: the simulation is single threaded, a lock on a
+#                      mutex that is already held (library mutexes are non-recursive) never returns
+#  mktime              libc re-reads the time zone on every call (frees and re-allocates its own
+#                      TZ string); attributed to libc so that it is not mistaken for decoder memory
 LDFLAGS_w_c01 := -Wl,--wrap=gettimeofday -Wl,--wrap=pthread_mutex_lock -Wl,--wrap=pthread_mutex_unlock -Wl,--wrap=pthread_mutex_trylock -Wl,--wrap=mktime
